@@ -267,17 +267,40 @@ def r5(ctx, rep):
     rep.rule("C07.R5", "placeholders keep the statement well-formed for empty projections, relations and IN lists", floor=3)
     syn = ctx.syn
     # empty projection -> NULL unless supports_zero_columns
-    cands = [f for f in syn.fns_in_file("sql/gen_projection.rs") if "body" in f and any(
-        n.get("k") == "if" and "res.is_empty()" in show(n["c"]) for n in walk(f["body"]))]
+    # role anchor: the `push` of a NULL select item; the `if` around it is evaluated as a truth table over (projection empty, dialect supports zero columns)
+    import alpha
+    import boolfn
+    import guards as _g
     ok = False
     where = None
-    for f in cands:
+    for f in syn.fns_in_file("sql/gen_projection.rs"):
+        if "body" not in f:
+            continue
+        par = _g.parents(f["body"])
         for n in walk(f["body"]):
-            if n.get("k") == "if" and "res.is_empty()" in show(n["c"]):
-                c = show(n["c"])
-                t = show_stmts(n["t"], maxdepth=14)
+            if n.get("k") == "mcall" and n["m"] == "push" and "Value::Null" in show(n, maxdepth=14) and "SelectItem" in show(n, maxdepth=14):
                 where = f
-                ok = "!ctx.dialect.supports_zero_columns()" in c and "res.push(" in t and "Value::Null" in t
+                acc = show(n["r"])
+                cur, cond = n, None
+                while id(cur) in par:
+                    cur = par[id(cur)]
+                    if cur.get("k") == "if":
+                        cond = cur
+                        break
+                if cond is None:
+                    continue
+                A = alpha.Inliner(f)
+                try:
+                    rows = []
+                    for empty in (True, False):
+                        for zero in (True, False):
+                            def atom(t, empty=empty, zero=zero):
+                                t = t.replace(" ", "")
+                                return empty if t == f"{acc}.is_empty()" else zero if t == "ctx.dialect.supports_zero_columns()" else None
+                            rows.append(boolfn.ev(cond["c"], atom, A) == (empty and not zero))
+                    ok = all(rows) and any(x is n or True for x in walk(cond["t"])) and _g._contains(cond["t"], n)
+                except boolfn.Unknown:
+                    ok = False
     rep.check(ok, "empty-projection", "an empty projection must be replaced by a NULL item unless the dialect supports zero columns",
               file=where["file"] if where else "prqlc/prqlc/src/sql/gen_projection.rs", line=where["l"] if where else None, fn=where["path"] if where else None)
     # empty IN list -> false
